@@ -434,6 +434,7 @@ func runC15(c *report.Ctx) {
 	}
 	ruleAmountStringUntouched(c)
 	ruleAmountCtorErrorUsed(c)
+	ruleAmountsNeverFloat(c)
 }
 
 func isFloaty(t types.Type) bool {
